@@ -3,8 +3,8 @@ package main
 // C19 — Server is stateless before a valid cookie and silent in hidden mode.
 
 import (
-	"go/ast"
 	"fmt"
+	"go/ast"
 	"go/token"
 	"go/types"
 	"sort"
@@ -178,12 +178,12 @@ func checkC19(c *Ctx) {
 	hidReader := hopID("transport", "Server", "handlePQClientRequestHidden")
 	// path-based (helpers cut out of readPacket are inlined): per site, the conjunction over all paths through it
 	type siteRes struct {
-		ins                    ssa.Instruction
-		id                     string
-		seen                   bool
-		r4ok, r2ok, lenOK      bool
-		hiddenArm, discover    bool
-		r4why                  string
+		ins                 ssa.Instruction
+		id                  string
+		seen                bool
+		r4ok, r2ok, lenOK   bool
+		hiddenArm, discover bool
+		r4why               string
 	}
 	sites := map[ssa.Instruction]*siteRes{}
 	var order []*siteRes
